@@ -108,6 +108,9 @@ func (s *Sim) addOwnChannels(chain *SimChain, u *Universe) {
 			}
 			tx.AddTxOut(&wire.TxOut{Value: val, PkScript: sc})
 		}
+		for e := 0; e < i%3+1; e++ {
+			tx.AddTxOut(&wire.TxOut{Value: int64(5000 + 10*e + i), PkScript: []byte{0x51}})
+		}
 		// heights 90..97: announcement_signatures become mature six blocks
 		// deep, so the highest ones are premature at the start height
 		height := int32(startHeight - 10 + t.CfgDraw(8))
